@@ -483,7 +483,10 @@ RefStep0(sc, h, ev) ==
      \* the bookkeeping stopped after a step nobody demanded; how the run ENDS is still judged (C05 is about the outcome)
      [h |-> h,
       v |-> IF ev.k = "END" /\ ev.r # "ok" /\ h.fault = None /\ h.mal = None /\ ev.cat \notin {"loop_guard", "cycle", "too_slow"}
-            THEN Viol("C05_run_failed", <<ev.r, ev.cat>>) ELSE NoV]
+            THEN Viol("C05_run_failed", <<ev.r, ev.cat>>)
+            \* ... and a malformed reply that was seen before the bookkeeping stopped must still have aborted the run
+            ELSE IF ev.k = "END" /\ ev.r = "ok" /\ h.fault = None /\ h.mal # None
+            THEN Viol("C13_malformed_reply_accepted", <<h.mal, ev.r>>) ELSE NoV]
   ELSE CASE ev.k = "SB"  -> RefSB(sc, h, ev)
          [] ev.k = "SE"  -> RefSE(sc, h, ev)
          [] ev.k = "DE"  -> RefDE(sc, h, ev)
